@@ -1,7 +1,7 @@
 """Shared engine of ./check (see DESIGN.md sections 2 and 3)."""
 import os, sys, json, time, subprocess, hashlib, re, fcntl, shutil, importlib, collections, random
 
-ROOT = os.path.dirname(os.path.dirname(os.path.abspath(__file__)))
+ROOT = os.path.dirname(os.path.dirname(os.path.abspath(__file__)))  # works from any copy/snapshot of /verif
 LEAN = os.path.join(ROOT, "lean")
 HARNESS = os.path.join(ROOT, "harness")
 WORK = os.path.join(ROOT, "work")
